@@ -167,6 +167,22 @@ def setup(concepts, spec):
     attach.attach(concepts.junctors.Relations, 'tostring', TostringMonitor())
     global POOL
     POOL = common.Pool(5)
+    if spec.get('shard', 0) % 2 == 1:
+        # user code derives its own classes from the exported relation classes (never instantiated,
+        # never handed to the library): the classification of contexts is unaffected
+        made = 0
+        for name in getattr(concepts.junctors, '__all__', []):
+            base = getattr(concepts.junctors, name, None)
+            if isinstance(base, type) and base.__module__ == concepts.junctors.__name__ and name != 'Relations':
+                try:
+                    USER_CLASSES.append(type('My' + name, (base,), {'__doc__': 'a user subclass', 'note': 'x'}))
+                    made += 1
+                except Exception:
+                    COL.count('junctor_class_not_subclassable')
+        COL.count('user_subclasses_of_relation_classes', made)
+
+
+USER_CLASSES = []
 
 
 def targeted():
